@@ -265,6 +265,7 @@ func c06RacePass(tier string, cov map[string]interface{}) []run.Violation {
 			mu.Unlock()
 		}(lo, hi)
 	}
+	wg.Wait()
 	driverRuns := scenariosRun
 	// the shared-document product: every short path, two goroutines on one document object
 	sharedPaths, sharedDocs := conc.SharedDocProduct(tier)
